@@ -30,6 +30,9 @@ import (
 //              instance all decide the same for the same (id, rate)
 //   nesting    over a ladder of rates, kept at N implies kept at every M <= N
 //   fraction   over a fixed number of PRNG ids the kept fraction is 1/N within 6 sigma
+//   factory    deterministic samplers obtained through a started SamplerFactory (top level and
+//              rule downstream, several environments, re-configured rates) decide by the rate
+//              of the definition that was asked for
 //   boundary   searched (id, rate) pairs whose hash is exactly at / one above the threshold
 
 // ---- adapters to the code under test ---------------------------------------
@@ -317,6 +320,145 @@ func TestVerif_C10(t *testing.T) {
 		if at < wantPairs/4 || above < wantPairs/4 {
 			run.Inconclusive(fmt.Sprintf("boundary search found only %d/%d pairs in %d ids", at, above, scanned))
 		}
+	})
+
+	// --- deterministic samplers obtained through the real SamplerFactory -------
+	// One started factory serves several environments: plain deterministic samplers and
+	// rules-based samplers whose rules delegate to deterministic samplers at DISTINCT rates
+	// (rule j is selected by the span field k = j). Samplers are requested in PRNG order,
+	// rates are re-configured between requests with and without ClearDynsamplers (reload),
+	// and every (rate, keep) must be the threshold decision for the rate of the definition
+	// that was asked for - whatever the factory created before.
+	run.Cases("factory", run.N(300, 6000), func(i int, rng *verifkit.Rand) {
+		type env struct {
+			name  string
+			rates []int // one rate = plain DeterministicSampler, several = rules with deterministic downstream
+			rules bool
+		}
+		pick := func(exclude map[int]bool) int {
+			for {
+				r := verifkit.Pick(rng, 1, 2, 3, 5, 7, 10, 50, 100, 1000, 65536, 1<<31-1, 1<<31)
+				if !exclude[r] {
+					exclude[r] = true
+					return r
+				}
+			}
+		}
+		envs := make([]*env, rng.Range(2, 4))
+		for e := range envs {
+			ev := &env{name: verifkit.Pick(rng, "prod", "staging", "dev", "dataset-"+rng.Hex(2), "__default__") + strconv.Itoa(e)}
+			used := map[int]bool{}
+			if rng.Chance(0.6) {
+				ev.rules = true
+				for n := rng.Range(2, 4); len(ev.rates) < n; {
+					ev.rates = append(ev.rates, pick(used))
+				}
+			} else {
+				ev.rates = []int{pick(used)}
+			}
+			envs[e] = ev
+		}
+		cfg := &config.MockConfig{Samplers: map[string]*config.V2SamplerChoice{}}
+		install := func(ev *env) {
+			choice := &config.V2SamplerChoice{}
+			if !ev.rules {
+				choice.DeterministicSampler = &config.DeterministicSamplerConfig{SampleRate: ev.rates[0]}
+			} else {
+				rb := &config.RulesBasedSamplerConfig{}
+				for j, r := range ev.rates {
+					rb.Rules = append(rb.Rules, &config.RulesBasedSamplerRule{
+						Name:       verifkit.Pick(rng, "", "rule", "rule-"+strconv.Itoa(j)),
+						Conditions: []*config.RulesBasedSamplerCondition{{Field: "k", Operator: config.EQ, Value: j, Datatype: "int"}},
+						Sampler:    &config.RulesBasedDownstreamSampler{DeterministicSampler: &config.DeterministicSamplerConfig{SampleRate: r}},
+					})
+				}
+				choice.RulesBasedSampler = rb
+			}
+			cfg.Mux.Lock()
+			cfg.Samplers[ev.name] = choice
+			cfg.Mux.Unlock()
+		}
+		for _, ev := range envs {
+			install(ev)
+		}
+		f := &SamplerFactory{Config: cfg, Logger: &logger.NullLogger{}, Metrics: &metrics.NullMetrics{}}
+		if err := f.Start(); err != nil {
+			t.Fatalf("verif harness: SamplerFactory.Start: %v", err)
+		}
+		defer f.Stop()
+		var hist []string
+		allRates := func() map[int]bool {
+			m := map[int]bool{}
+			for _, ev := range envs {
+				for _, r := range ev.rates {
+					m[r] = true
+				}
+			}
+			return m
+		}
+		steps := rng.Range(6, 14)
+		for st := 0; st < steps; st++ {
+			ev := envs[rng.Intn(len(envs))]
+			switch rng.Intn(6) {
+			case 0: // the definition changes and the reload clears the factory's shared state
+				used := map[int]bool{}
+				for j := range ev.rates {
+					ev.rates[j] = pick(used)
+				}
+				install(ev)
+				f.ClearDynsamplers()
+				hist = append(hist, fmt.Sprintf("reconfigure %s -> %v + ClearDynsamplers", ev.name, ev.rates))
+			case 1: // the definition changes; the factory is simply asked again
+				j := rng.Intn(len(ev.rates))
+				used := map[int]bool{}
+				for _, r := range ev.rates {
+					used[r] = true
+				}
+				ev.rates[j] = pick(used)
+				install(ev)
+				hist = append(hist, fmt.Sprintf("reconfigure %s -> %v (no clear)", ev.name, ev.rates))
+			}
+			s := f.GetSamplerImplementationForKey(ev.name)
+			hist = append(hist, "get "+ev.name)
+			if s == nil {
+				run.Violation("C10/deterministic/factory/no-sampler", "the factory returned no sampler for a configured environment", map[string]any{"history": hist})
+				continue
+			}
+			others := allRates()
+			for j, want := range ev.rates {
+				for n := 0; n < 12; n++ {
+					id := rng.Hex(32)
+					tr := &types.Trace{TraceID: id}
+					tr.AddSpan(&types.Span{TraceID: id, Event: &types.Event{Data: types.NewPayload(cfg, map[string]any{"k": int64(j)})}})
+					rate, keep, reason, _ := s.GetSampleRate(tr)
+					run.Count("decisions", 1)
+					wantRate := uint(want)
+					if want <= 1 {
+						wantRate = 1
+					}
+					wit := map[string]any{"history": hist, "environment": ev.name, "definition_rates": ev.rates, "asked_rule": j, "configured_rate": want,
+						"trace_id": id, "returned_rate": rate, "keep": keep, "reason": reason}
+					if rate != wantRate {
+						sig := "C10/deterministic/factory/reported-rate"
+						if others[int(rate)] {
+							sig = "C10/deterministic/factory/rate-of-another-definition"
+						}
+						run.Violation(sig, fmt.Sprintf("deterministic sampler configured at rate %d (environment %s, rule %d) reports rate %d", want, ev.name, j, rate), wit)
+						break
+					}
+					if keep != c10ModelKeep(id, want) {
+						run.Violation("C10/deterministic/factory/threshold-model-mismatch", fmt.Sprintf("keep=%v but the threshold rule for the configured rate %d says %v", keep, want, !keep), wit)
+						break
+					}
+				}
+			}
+			kind := "plain"
+			if ev.rules {
+				kind = fmt.Sprintf("rules%d", len(ev.rates))
+			}
+			run.Nontrivial(fmt.Sprintf("factory:%s:%d", kind, st))
+		}
+		run.Count("factory_sampler_requests", int64(steps))
 	})
 
 	// --- kept fraction ----------------------------------------------------
